@@ -360,3 +360,55 @@ func verifCompoundPair(version int) {
 
 func VerifH_C11_compound_v1() { verifCompoundPair(1) }
 func VerifH_C11_compound_v3() { verifCompoundPair(3) }
+
+// attribute message with a name around the largest length its 16-bit size field can hold (65534 is the last that
+// fits with the terminator): encoded messages decode back, longer names are refused with an error (never a panic)
+func VerifH_C11_attribute_long_name() {
+	vrt.LoopBound(300000)
+	L := []int{300, 65533, 65534, 65535, 65536, 70000}[vrt.Choice(6)]
+	nb := make([]byte, L)
+	for i := range nb {
+		nb[i] = byte('a' + i%26)
+	}
+	nb[0], nb[L-1] = 'A'+vrt.U8()%26, 'A'+vrt.U8()%26
+	data := vrt.Bytes(4)
+	dt := &DatatypeMessage{Class: DatatypeFixed, Version: 1, Size: 4, ClassBitField: 0x08, Properties: []byte{0, 0, 32, 0}}
+	ds := &DataspaceMessage{Version: 1, Type: DataspaceSimple, Dimensions: []uint64{1}}
+	buf, err := EncodeAttributeMessage(string(nb), dt, ds, data)
+	if err != nil {
+		vrt.Assert(L+1 > 0xFFFF, "attribute-encode-accepts-valid")
+		vrt.Covered("attribute-end")
+		return
+	}
+	got, err := ParseAttributeMessage(buf, binary.LittleEndian)
+	vrt.AssertNoErr(err, "attribute-decode-accepts-encoded")
+	if err == nil {
+		vrt.Assert(got.Name == string(nb), "attribute-name")
+		vrt.Assert(string(got.Data) == string(data), "attribute-data")
+	}
+	vrt.Covered("attribute-end")
+}
+
+// dataspace ranks above the format's range (the rank field is one byte; the format allows 32): either the encoder
+// refuses, or what it produced decodes back to the same extents — never a panic, never another rank
+func VerifH_C11_dataspace_rank_limits() {
+	rank := []int{33, 255, 256, 257, 300}[vrt.Choice(5)]
+	dims := make([]uint64, rank)
+	for i := range dims {
+		dims[i] = 1
+	}
+	dims[0], dims[rank-1] = vrt.U64(), vrt.U64()
+	buf, err := EncodeDataspaceMessage(dims, nil)
+	if err != nil {
+		vrt.Covered("dataspace-end")
+		return
+	}
+	ds, err := ParseDataspaceMessage(buf)
+	if err == nil {
+		vrt.Assert(len(ds.Dimensions) == rank, "dataspace-rank")
+		if len(ds.Dimensions) == rank {
+			vrt.Assert(ds.Dimensions[0] == dims[0] && ds.Dimensions[rank-1] == dims[rank-1], "dataspace-dims")
+		}
+	}
+	vrt.Covered("dataspace-end")
+}
